@@ -10,14 +10,17 @@ CONSTANTS
   DPfx = {TRUE}
   AddScales = {2}
   ModScales = {4}
-  ReadKeys = {"kfoo", "km"}
-  ReadProbes = {"kfoo", "kfoo/km"}
+  ReadKeys = {"kfoo"}
+  ReadProbes = {"kfoo/km"}
   BinP = {"foo", "m"}
   BinF = {"mul", "add"}
   CopyP = {"kfoo"}
-  PickleP = {"kfoo", "m"}
+  PickleP = {"m"}
   ConvHows = {"to"}
   HandleH = {"copyreg", "unitcopy"}
+  PickleH = {"registry"}
+  InBaseQ = {"km", "m"}
+  InBaseS = "slim"
 INIT Init
 NEXT Next
 VIEW View
